@@ -1,4 +1,11 @@
 //! Registry: property id -> monitor + evidence description.
+pub mod c07;
+pub mod c08;
+pub mod c09;
+pub mod c10;
+pub mod c17;
+pub mod elfgen;
+pub mod common;
 pub mod hwprops;
 
 use crate::hw::run::HwMonitor;
@@ -9,6 +16,12 @@ const HW_ASSUME: &[&str] = &[
     "iced-x86 is used only to generate, label and steer trials and for the static list of architecturally undefined flags; it never decides a result",
     "verdicts are for release-profile semantics (overflow wraps, debug_assert off), hooks on (fatal_error!/opcode_unimplemented! return Err as on wasm32)",
     "AF is not compared (out of scope by the property); vendor-dependent encodings (0x66 on near branches, non-canonical branch targets) are not generated",
+];
+
+const MODEL_ASSUME: &[&str] = &[
+    "the reference model in the harness is the oracle (written from the SDM / System V ABI / elf(5), not from the subject's source)",
+    "verdicts are for release-profile semantics, hooks on (fatal_error!/assert_fatal! return Err as on wasm32, so only real crashes unwind)",
+    "the monitor observes the native Rust API; the wasm-bindgen/JS wrappers are not compiled on this target",
 ];
 
 pub fn spec(prop: &str) -> Option<CheckSpec> {
@@ -38,6 +51,26 @@ pub fn spec(prop: &str) -> Option<CheckSpec> {
             info: PropInfo { id: "C06", engine: "hw", rule: hw_rule, assumptions: HW_ASSUME, floor: (50_000, 1_000_000), exhaustive_subspaces: &[] },
             finalize: Some(hwprops::finalize_hw),
         },
+        "C07" => CheckSpec {
+            info: PropInfo { id: "C07", engine: "model", rule: "histories of 100-300 reg_write_*/reg_read_* calls (valid writes, values that do not fit, registers of another width or class incl. RIP/EIP/XMM) against a 16x64-bit reference register file written from the SDM; after EVERY call all 68 views + RIP are read back and compared. distinct_nontrivial = distinct (call kind, width, register, validity class) tuples plus distinct (view, prior content, written value) triples of the exhaustive single-write layer.", assumptions: MODEL_ASSUME, floor: (20_000, 1_000_000), exhaustive_subspaces: &["single-write layer: 68 views x 12 boundary prior contents x 10 written values", "rejection layer: every accessor width x every register of another width or class (68 views, RIP, EIP, XMM0-15)"] },
+            finalize: None,
+        },
+        "C08" => CheckSpec {
+            info: PropInfo { id: "C08", engine: "model", rule: "histories of 60-200 operations over random layouts of 1-8 areas (ordinary, adjacent, ending at or near 2^64, around 2^63): all typed/byte API accessors and guest MOV/MOVUPS loads and stores via step(), with (address, length) drawn relative to an area (inside, first/last byte, one past, straddling, before start, unmapped, 2^64-k, lengths 0, 2^31, 2^63, 2^64-16); written bytes are counter-stamped; after EVERY operation the complete area list is compared with a reference byte map. distinct_nontrivial = distinct (operation kind, address class, expected outcome) triples plus layout sizes.", assumptions: MODEL_ASSUME, floor: (100_000, 5_000_000), exhaustive_subspaces: &[] },
+            finalize: None,
+        },
+        "C09" => CheckSpec {
+            info: PropInfo { id: "C09", engine: "model", rule: "every access path (12 API accessors, guest load/store/read-modify-write, MOVUPS load/store, PUSH, POP, CALL, RET, instruction fetch) under every one of the 8 permission masks: on a fresh area, on the constructor's code area (default mask and after mem_prot), in histories where mem_prot changes the mask between accesses, and on machines loaded from the bundled and from generated ELF files (area mask must equal the segment flags). Necessity (missing bit => Err and the complete area list unchanged) is judged for all masks; success is demanded only for masks real paging can express (R, RW, RX, RWX). distinct_nontrivial = distinct (configuration, mask, path) triples.", assumptions: MODEL_ASSUME, floor: (2_000, 200_000), exhaustive_subspaces: &["8 masks x 22 access paths on a fresh area", "constructor code area: default mask + 8 masks x 22 access paths"] },
+            finalize: None,
+        },
+        "C10" => CheckSpec {
+            info: PropInfo { id: "C10", engine: "model", rule: "histories of 20-80 calls over mem_init_area/_named, mem_init_zero/_named, mem_init_anywhere, mem_init_zero_anywhere, init_stack, init_stack_program_start, mem_resize_section, mem_prot and guest brk, on machines from new() (code low/high) or from generated ELF files; new ranges are generated relative to existing areas (before, abutting, inside, enclosing, equal, overlapping from below/above, zero-length, wrapping past 2^64). Invariant hook after EVERY call: the area list is pairwise disjoint, data.len()==length, nothing wraps, and the transition from the previous list is exactly what the call may do (interval-set model). distinct_nontrivial = distinct (call, relation to existing areas, overlap yes/no) triples.", assumptions: MODEL_ASSUME, floor: (50_000, 3_000_000), exhaustive_subspaces: &[] },
+            finalize: None,
+        },
+        "C17" => CheckSpec {
+            info: PropInfo { id: "C17", engine: "model", rule: "init_stack_program_start over generated argv/envp lists (0-300 entries, strings from empty to 4 KiB, non-ASCII, odd and even totals, frames larger than the requested stack) x stack sizes {0, 8, 16, 24, 33, 256, 4 KiB, 4097, 64 KiB, 128 KiB} x machines from new() (code low/high, extra low areas) and from generated and bundled ELF files. Observation is guest-side: argc+envc+3 POP instructions are stepped and RAX read after each; strings are read byte-wise until NUL; the area list (hook) gives freshness, writability and disjointness. distinct_nontrivial = distinct (machine kind, stack size, argv count class, envp count class, parity of the frame) tuples.", assumptions: MODEL_ASSUME, floor: (2_000, 100_000), exhaustive_subspaces: &[] },
+            finalize: None,
+        },
         _ => return None,
     })
 }
@@ -50,6 +83,11 @@ pub fn monitor(prop: &str, tier: Tier) -> Option<Box<dyn Monitor>> {
         "C04" => Box::new(HwMonitor::new("C04", hwprops::strata_for("C04", tier))),
         "C05" => Box::new(HwMonitor::new("C05", hwprops::strata_for("C05", tier))),
         "C06" => Box::new(HwMonitor::new("C06", hwprops::strata_for("C06", tier))),
+        "C07" => Box::new(c07::C07::new(tier)),
+        "C08" => Box::new(c08::C08::new(tier)),
+        "C09" => Box::new(c09::C09::new(tier)),
+        "C10" => Box::new(c10::C10::new(tier)),
+        "C17" => Box::new(c17::C17::new(tier)),
         _ => return None,
     })
 }
@@ -66,7 +104,7 @@ pub fn replay(prop: &str, case: &serde_json::Value) -> i32 {
             let Some(m) = monitor(prop, tier) else { return 2 };
             let out = verif_root().join("harness/target/run").join(format!("replay-{}.json", std::process::id()));
             std::fs::create_dir_all(out.parent().unwrap()).ok();
-            worker_main(m, prop, tier, seed, 0, 1, &out, Some(k));
+            worker_main(m, prop, tier, seed, 0, 1, &out, Some(k), None, &[]);
             let v: serde_json::Value = std::fs::read(&out).ok().and_then(|d| serde_json::from_slice(&d).ok()).unwrap_or_default();
             let n = v["violations"].as_array().map(|a| a.len()).unwrap_or(0);
             for x in v["violations"].as_array().into_iter().flatten() {
